@@ -25,6 +25,9 @@ structure DSt where
   interval : Nat := 3600
   /-- per kept key: the latest instant (virtual seconds) at which it was advertised, or from which the obligation runs -/
   last : List (Nat × Nat) := []
+  /-- the instant the node was last told to be online again, plus the time allowed for noticing it and catching up the
+      work missed meanwhile: an outage excuses a late advertisement up to then, not for a whole further interval -/
+  grace : Nat := 0
   deriving Repr
 
 def ids (s : String) : List Nat := if s == "" || s == "-" then [] else (s.splitOn ",").map String.toNat!
@@ -124,9 +127,9 @@ def verdictW (d : DSt) (line : String) : DSt × String :=
   | _ => (d2, "ok")
 
 /-- walk the send instants of one key: the first gap longer than `bound` -/
-def firstGap (bound : Nat) : Nat → List Nat → Option (Nat × Nat)
+def firstGap (bound grace : Nat) : Nat → List Nat → Option (Nat × Nat)
   | _, [] => none
-  | r, t :: ts => if t > r + bound then some (r, t) else firstGap bound (max r t) ts
+  | r, t :: ts => if t > max (r + bound) grace then some (r, t) else firstGap bound grace (max r t) ts
 
 /-- the end-to-end monitor: the window monitor, and in strict scenarios the gap between two consecutive advertisements of
     a key that stayed kept while the node stayed online and the swarm stayed the same (restarts included): at most one
@@ -141,24 +144,27 @@ def verdict (d : DSt) (line : String) : DSt × String :=
   let times := parseMap (C09.kvOf iw "times")
   let timesOf (k : Nat) : List Nat := ((times.find? (·.1 == k)).map (·.2)).getD []
   let named := (opsOf ws).map fun o => match o with | .start _ k => k | .stop k => k | .once k => k
-  let resetAll := !d.online || !d'.online || ws.head? == some "swarm" || ws.head? == some "online" || ws.head? == some "sp"
-    || (C09.kvOf iw "now") == ""
+  let resetAll := ws.head? == some "swarm" || ws.head? == some "sp" || (C09.kvOf iw "now") == ""
+  -- while the node is cut off nothing can be sent and nothing is checked; the obligations keep running, and once it is
+  -- back it has ten minutes to notice and catch up whatever fell due meanwhile
+  let cutOff := !d.online || !d'.online || ws.head? == some "online"
+  let grace := if ws.head? == some "online" then now + 600 else d'.grace
   let bound := d'.interval + d'.interval / 12 + 300
   let refOf (k : Nat) : Option Nat := (d.last.find? (·.1 == k)).map (·.2)
-  let checked := if d'.strict && !resetAll then d.kept.filter fun k => d'.kept.contains k && !named.contains k else []
+  let checked := if d'.strict && !resetAll && !cutOff then d.kept.filter fun k => d'.kept.contains k && !named.contains k else []
   let gaps := checked.filterMap fun k =>
     match refOf k with
     | none => none
-    | some r => (firstGap bound r (timesOf k ++ [now])).map fun g => (k, g)
+    | some r => (firstGap bound grace r (timesOf k ++ [now])).map fun g => (k, g)
   let last' := d'.kept.map fun k =>
     match refOf k with
     | some r => if resetAll || named.contains k then (k, now) else (k, (timesOf k).foldl max r)
     | none => (k, now)
-  let d'' := { d' with last := last' }
+  let d'' := { d' with last := last', grace := grace }
   match gaps.head? with
   | some (k, (a, b)) =>
     if out == "ok" then
-      (d'', s!"FAIL key {k} kept for reproviding was not advertised between t={a}s and t={b}s ({b - a}s, the node online, the swarm unchanged): longer than one interval plus the allowed delay [gap]")
+      (d'', s!"FAIL key {k} kept for reproviding was not advertised between t={a}s and t={b}s ({b - a}s; the swarm unchanged, outages excused up to ten minutes after their end): longer than one interval plus the allowed delay [gap]")
     else (d'', out)
   | none => (d'', out)
 
